@@ -303,11 +303,27 @@ def native_env():
         "inf": math.inf,
         "nan": math.nan,
         "floor": math.floor,
+        "forall": _native_forall,
+        "exists": _native_exists,
     }
     env.update({k: v for k, v in NATIVE_HELPERS.items() if not k.startswith("$")})
     for name, p in REG.predicates.items():
         env[name] = _mk_pred(p, env)
     return env
+
+
+_UNIVERSE = {"int": list(range(-3, 14)), "bool": [False, True]}
+
+
+def _native_forall(f, *types):
+    """Bounded-universe evaluation of a spec quantifier: a False answer exhibits a genuine witness."""
+    import itertools
+    doms = [_UNIVERSE[t] for t in types]
+    return all(f(*xs) for xs in itertools.product(*doms))
+
+
+def _native_exists(f, *types):
+    raise NotImplementedError("existential spec quantifier cannot be evaluated natively over a bounded universe")
 
 
 def _mk_pred(p, env):
